@@ -92,7 +92,9 @@ func TestC12(t *testing.T) {
 		// an ExtendedDaemonSet object that itself carries its neighbour's identity label in metadata.labels (a manifest
 		// derived from an exported object, a common-labels overlay): legal, and it must change nothing
 		{name: "S6-object-carries-neighbours-name-label", nodes: nodes,
-			eds:   []w.EDSOpt{func(e *v1.ExtendedDaemonSet) { e.Labels = map[string]string{v1.ExtendedDaemonSetNameLabelKey: "bar", "team": "x"} }},
+			eds: []w.EDSOpt{func(e *v1.ExtendedDaemonSet) {
+				e.Labels = map[string]string{v1.ExtendedDaemonSetNameLabelKey: "bar", "team": "x"}
+			}},
 			extra: []client.Object{w.NewEDS("ns", "bar", "A", w.WithFrequency(0))}, raw: true,
 			first: nil, alpha: &w.Alpha{Templates: []string{"B"}}, budget: b},
 		// the user ends the declared migration (removes the annotation) while pods of the old DaemonSet still run: from
